@@ -235,11 +235,22 @@ def make_font(tape, idx):
         for i, w in enumerate(ws):
             widths[c + i] = w
         c += n + t.rint(0, 3, "font.wgap")
+    top = False
+    if t.coin(25, 100, "font.wtop"):
+        # the range form, up to the highest CID there is
+        wt = F(125 * t.rint(1, 8, "font.wtopw"))
+        lo = t.pick([65535, 65534, 65000], "font.wtoplo")
+        warr += [lo, 65535, int(wt)]
+        for cid in range(lo, 65536):
+            widths[cid] = wt
+        top = True
     descent = F(-25 * t.rint(0, 12, "font.descent"))
     fd = {b"Type": Name(b"FontDescriptor"), b"FontName": Name(name), b"Flags": 4, b"Ascent": 800, b"Descent": int(descent), b"FontBBox": [0, int(descent), 1000, 800], b"ItalicAngle": 0, b"CapHeight": 700, b"StemV": 80}
     desc = {b"Type": Name(b"Font"), b"Subtype": Name(b"CIDFontType2"), b"BaseFont": Name(name), b"CIDSystemInfo": {b"Registry": b"Adobe", b"Ordering": b"Identity", b"Supplement": 0}, b"FontDescriptor": fd, b"DW": int(dw), b"W": warr}
     obj = {b"Type": Name(b"Font"), b"Subtype": Name(b"Type0"), b"BaseFont": Name(name), b"Encoding": Name(b"Identity-H"), b"DescendantFonts": [desc]}
-    return Font("type0", name.decode(), widths, 0, descent, dw, bytes_per_code=2, obj=obj)
+    f = Font("type0", name.decode(), widths, 0, descent, dw, bytes_per_code=2, obj=obj)
+    f.top = top
+    return f
 
 
 # ---------------------------------------------------------------------------- reference machine
